@@ -255,7 +255,9 @@ class ScriptedScheduler(TrialScheduler):
         if s[0] == "none":
             return None
         if s[0] == "resume":
-            return TrialSuggestion.resume_suggestion(trial_id=s[1], config=None)
+            # every second resume changes the configuration of the trial (as promotion-type Hyperband does)
+            new_cfg = {"x": 1000 + k, "epochs": 99} if k % 2 == 0 else None
+            return TrialSuggestion.resume_suggestion(trial_id=s[1], config=new_cfg)
         src = s[1] if len(s) > 1 and s[1] is not None and s[1] >= 0 else None
         return TrialSuggestion.start_suggestion({"x": trial_id, "epochs": 99}, checkpoint_trial_id=src)
 
@@ -330,7 +332,9 @@ def instrument_scheduler(sched, log):
 
     def on_trial_result(trial, result):
         d = o_res(trial, result)
-        log.append({"a": "Result", "t": trial.trial_id, "r": result.get("run", 0), "i": result.get("idx", 0), "d": d})
+        cx = trial.config.get("x") if isinstance(trial.config, dict) else None
+        log.append({"a": "Result", "t": trial.trial_id, "r": result.get("run", 0), "i": result.get("idx", 0), "d": d,
+                    "cfgx": cx if isinstance(cx, int) else -1})
         return d
 
     def on_trial_add(trial):
